@@ -130,6 +130,45 @@ def _check_builder(eng, rep, rule, fid, B, pname, centre, radius, via):
                 rep.bad(rule, s2, "%s|projected-point|%s" % (fid, short(pt, 30)), "the point handed to dykstra is `%s`, not centre + step%s" % (short(pt), via))
 
 
+def rule_geometry_point_from_box_solver(eng, rep, rule="C13-6.geometry-point-is-centre-plus-an-output-of-the-box-solver"):
+    """trsbox_geometry must return centre + s with s an output of trsbox_linear(+/-g, lower - centre, upper - centre, Delta): only that routine keeps s inside
+    the (asymmetric) box and the ball; anything derived otherwise (a mirrored or rescaled step) is not known to be feasible."""
+    fi = eng.fn("trust_region.trsbox_geometry")
+    cfg = eng.cfg(fi)
+    centre, lower, upper, radius = fi.posparams[0], fi.posparams[3], fi.posparams[4], fi.posparams[5]
+    nret = 0
+    for n, d in cfg.g.nodes(data=True):
+        st = d["ast"]
+        if d["kind"] != "stmt" or not isinstance(st, ast.Return) or st.value is None:
+            continue
+        nret += 1
+        v = st.value
+        site = eng.where(fi, st)
+        step = None
+        if isinstance(v, ast.BinOp) and isinstance(v.op, ast.Add):
+            for a, b_ in ((v.left, v.right), (v.right, v.left)):
+                if ekey(a) == centre and isinstance(b_, ast.Name):
+                    step = b_
+        if step is None:
+            rep.bad(rule, site, "trust_region.trsbox_geometry|return-shape|%s" % short(v, 25), "returns `%s`, not %s + <step>" % (short(v), centre))
+            continue
+        bad = None
+        for dn in cfg.defs_reaching(step, step.id):
+            ds = cfg.ast_of(dn)
+            okd = False
+            if isinstance(ds, ast.Assign) and isinstance(ds.value, ast.Call) and any(t.fid == "trust_region.trsbox_linear" for t in eng.res.calls[id(ds.value)].targets):
+                a = ds.value.args
+                okd = len(a) >= 4 and ekey(a[1]).replace(" ", "") == "%s-%s" % (lower, centre) and ekey(a[2]).replace(" ", "") == "%s-%s" % (upper, centre) and ekey(a[3]) == radius
+            if not okd:
+                bad = ds
+        if bad is None:
+            rep.ok(rule, site, "`%s` is assigned only from trsbox_linear(., %s - %s, %s - %s, %s)" % (step.id, lower, centre, upper, centre, radius))
+        else:
+            rep.bad(rule, eng.where(fi, bad), "trust_region.trsbox_geometry|step-not-from-box-solver|%s" % step.id,
+                    "the returned step `%s` can come from `%s`, which is not an output of trsbox_linear over the box relative to the centre: it need not lie in the box" % (step.id, short(bad, 50)))
+    rep.require_count(rule, "returns of trsbox_geometry", nret, 2)
+
+
 def rule_zero_step(eng, rep, rule="C13-2.zero-step-replaces-a-model-increasing-regularised-step"):
     fi = eng.fn("controller.Controller.trust_region_step")
     cfg = eng.cfg(fi)
@@ -248,3 +287,4 @@ def run(eng, rep):
     rule_totality(eng, rep, rule="C13-4.totality-every-loop-is-bounded")
     from .mirrorrule import rule_mirror
     rule_mirror(eng, rep, 'C13-5.lower-and-upper-face-handling-are-reflections', ['trust_region.trsbox_linear'])
+    rule_geometry_point_from_box_solver(eng, rep)
